@@ -245,6 +245,9 @@ type Check struct {
 	Cleanup func(s *S)
 	// Explanation for evidence.
 	Explanation string
+	// Finish runs in the supervisor after the workers' results were merged;
+	// it may add violations, notes and counters (cross-worker comparisons).
+	Finish func(s *S, merged *Result)
 }
 
 // S is the supervisor-side handle.
@@ -622,6 +625,9 @@ func supervise(ck *Check, opt map[string]string, seed int64) int {
 	for _, v := range extraViol {
 		m.Violations = append(m.Violations, v)
 		m.ViolCount[v.Sig]++
+	}
+	if ck.Finish != nil {
+		ck.Finish(s, &m)
 	}
 	m.Notes = append(m.Notes, s.Notes...)
 
